@@ -403,7 +403,7 @@ Proof.
     assert (Em : map (fun x => rebuild (rebuild x)) ms = map rebuild ms).
     { apply map_ext. intro a. apply rebuild_idem. }
     rewrite Em. cbn in P3. apply andb_true_iff in P3 as [P3 _]. cbn in P4. apply andb_true_iff in P4 as [P4 _].
-    destruct ms as [|m0 r]; [discriminate|]. cbn [map]. destruct (sdict c); [discriminate|]. reflexivity.
+    destruct ms as [|m0 r]; [discriminate|]. cbn [map]. destruct (sdict c) eqn:Ed; [discriminate|]. cbn. now rewrite Ed.
 Qed.
 
 (* ------------------------------------------------------------------ subsequence_sound *)
